@@ -228,12 +228,18 @@ def do_scenario(arg):
             evaluate(["%s:error=%s:when=%d" % (nm, e, k)], "%s-%s" % (nm, e), 1)
     # persistent faults: the syscall keeps failing from position k on (a retry-until-success loop would never end).
     # `write` is left out: the driver's own marker writes use it.
+    # For read and openat the fault starts at EVERY position in turn (a loop that re-reads until end-of-file only spins when the
+    # file it is reading keeps failing, which "from the first read of the window on" does not reach: the configuration file is
+    # read first); for the other calls at their first position.
     seen_p = set()
     for k, nm in targets:
-        if nm in ("write", "close") or nm in seen_p or nm not in ("sendto", "connect", "openat", "read", "socket", "newfstatat", "ioctl", "lseek", "getcwd", "readlink"):
+        if nm in ("write", "close") or nm not in ("sendto", "connect", "openat", "read", "socket", "newfstatat", "ioctl", "lseek", "getcwd", "readlink"):
             continue
+        if nm in seen_p and nm not in ("read", "openat"):
+            continue
+        first = nm not in seen_p
         seen_p.add(nm)
-        for e in ERRNOS[nm][:2] if per_pos != "all" else ERRNOS[nm]:
+        for e in (ERRNOS[nm][:2] if first else ERRNOS[nm][:1]) if per_pos != "all" else ERRNOS[nm]:
             evaluate(["%s:error=%s:when=%d+" % (nm, e, k)], "persistent-%s-%s" % (nm, e), 1)
             st["persistent"] = st.get("persistent", 0) + 1
     # sampled pairs
